@@ -1155,7 +1155,10 @@ def _try_interpret_as_pauli_string(op: Any) -> PauliString | None:
         common_gates.YPowGate: pauli_gates.Y,
         common_gates.ZPowGate: pauli_gates.Z,
     }
-    if (pauli := cached_gates.get(type(op.gate))) is not None:
+    # (a global shift adds a phase: leave those gates to the general Pauli expansion below)
+    if (
+        pauli := cached_gates.get(type(op.gate))
+    ) is not None and op.gate.global_shift == 0:  # type: ignore[union-attr]
         exponent = op.gate.exponent  # type: ignore[union-attr]
         if exponent % 2 == 0:
             return PauliString()
